@@ -1177,8 +1177,8 @@ func cmdC17(args []string) error {
 		{1, "dest", 0, false, 80 * k, false},
 		{1, requeuer.RetriesKey, 0, false, 60 * k, false},
 		{2, "", 0, false, 12 * k, false},
-		{0, "later", 25 * time.Millisecond, false, 24 * k, false},
-		{1, "dest", 25 * time.Millisecond, false, 24 * k, false},
+		{0, "later", 200 * time.Millisecond, false, 16 * k, false},
+		{1, "dest", 200 * time.Millisecond, false, 16 * k, false},
 		{0, "seq", 0, false, 40 * k, true},
 	} {
 		if err := s.requeuerGroup(next(), q.gen, q.arg, q.delay, q.own, q.n, q.seq, -1); err != nil {
